@@ -75,6 +75,11 @@ type c16Stream struct {
 	closed   bool
 	baCalls  int      // calls of BufferedAmount(): a writer has taken its flow-control decision
 	gate     *c16Gate // concurrent-writer runs: see c16ConcurrentWriters
+	// ground truth for "held back": a message handed over while amount+len exceeds the limit needs a
+	// buffered-amount-low notification (the callback fired) that nobody has used yet
+	overLimit int // messages handed to the stream (not by the heartbeat sender) with amount+len > limit
+	fired     int // times the buffered-amount-low callback fired
+	hbDirect  int // bytes written below the flow control (the harness's stand-in for the heartbeat sender)
 }
 
 // c16Gate holds every caller of BufferedAmount() until `want` callers have arrived or `wait` has passed.
@@ -138,6 +143,9 @@ func (s *c16Stream) Write(b []byte) (int, error) {
 	s.mu.Lock()
 	defer s.mu.Unlock()
 	s.wrote = append(s.wrote, append([]byte(nil), b...))
+	if s.buffered+uint64(len(b)) > writeMaxBufferedAmount+uint64(s.hbDirect) {
+		s.overLimit++
+	}
 	s.buffered += uint64(len(b))
 	if s.buffered > s.maxSeen {
 		s.maxSeen = s.buffered
@@ -176,6 +184,33 @@ func (s *c16Stream) decisions() int {
 	defer s.mu.Unlock()
 	return s.baCalls
 }
+
+// hbWrite: the heartbeat sender writes below the flow control
+func (s *c16Stream) hbWrite(b []byte) {
+	s.mu.Lock()
+	s.wrote = append(s.wrote, append([]byte(nil), b...))
+	s.buffered += uint64(len(b))
+	s.hbDirect += len(b)
+	if s.buffered > s.maxSeen {
+		s.maxSeen = s.buffered
+	}
+	s.mu.Unlock()
+}
+
+// heldBack is the oracle of the flow-control clause on the scripted stream: the amount stayed within the
+// proved bound, and no message went over the limit without a buffered-amount-low notification to account for it.
+func (s *c16Stream) heldBack() (sig, what string) {
+	s.mu.Lock()
+	defer s.mu.Unlock()
+	max := writeMaxBufferedAmount
+	if s.maxSeen > max+max/2+uint64(s.hbDirect) {
+		return "C16:buffered-amount-unbounded", fmt.Sprintf("buffered amount reached %d > %d", s.maxSeen, max+max/2+uint64(s.hbDirect))
+	}
+	if s.overLimit > s.fired {
+		return "C16:writer-not-held-back", fmt.Sprintf("%d message(s) were handed to the stream although the buffered amount plus the message exceeded the limit of %d, but the network reported the amount low only %d time(s) (amount reached %d)", s.overLimit, max, s.fired, s.maxSeen)
+	}
+	return "", ""
+}
 func (s *c16Stream) SetReadDeadline(time.Time) error { return nil }
 func (s *c16Stream) SetBufferedAmountLowThreshold(th uint64) {
 	s.mu.Lock()
@@ -199,6 +234,9 @@ func (s *c16Stream) drain(k uint64) bool {
 	s.buffered -= k
 	fire := s.cb != nil && from > s.th && s.buffered <= s.th
 	cb := s.cb
+	if fire {
+		s.fired++
+	}
 	s.mu.Unlock()
 	if fire {
 		cb()
@@ -777,6 +815,9 @@ func c16FlowCase(out *vlib.Out, ops []string) {
 				}
 				if early != nil {
 					outs = append(outs, fmt.Sprintf("returned-early:%d:%v", early.n, early.err))
+					if early.err == nil && early.n == k {
+						accepted = append(accepted, buf)
+					}
 				} else {
 					outs = append(outs, "blocks")
 					pending, pendingN, pendingBuf = ch, k, buf
@@ -832,6 +873,9 @@ func c16FlowCase(out *vlib.Out, ops []string) {
 				select {
 				case r := <-pending:
 					outs = append(outs, fmt.Sprintf("returned-early:%d:%v", r.n, r.err))
+					if r.err == nil && r.n == pendingN {
+						accepted = append(accepted, pendingBuf)
+					}
 					pending = nil
 				case <-time.After(5 * time.Millisecond):
 					outs = append(outs, "-")
@@ -840,9 +884,26 @@ func c16FlowCase(out *vlib.Out, ops []string) {
 				outs = append(outs, "-")
 			}
 		case 'h':
-			_, _ = st.Write(c16Pattern(wi, k))
+			st.hbWrite(c16Pattern(wi, k))
 			accepted = append(accepted, c16Pattern(wi, k))
 			outs = append(outs, "-")
+		case 't':
+			// k milliseconds pass with the network as it is: nothing but Close and the network may release a writer
+			time.Sleep(time.Duration(k) * time.Millisecond)
+			if pending != nil {
+				select {
+				case r := <-pending:
+					outs = append(outs, fmt.Sprintf("returned-early:%d:%v", r.n, r.err))
+					if r.err == nil && r.n == pendingN {
+						accepted = append(accepted, pendingBuf)
+					}
+					pending = nil
+				default:
+					outs = append(outs, "-")
+				}
+			} else {
+				outs = append(outs, "-")
+			}
 		case 'c':
 			conn.Close()
 			closed = true
@@ -874,18 +935,11 @@ func c16FlowCase(out *vlib.Out, ops []string) {
 	// ---- oracle
 	out.Checked()
 	st.mu.Lock()
-	maxSeen, wrote := st.maxSeen, st.wrote
+	wrote := st.wrote
 	st.mu.Unlock()
-	hbBytes := uint64(0)
-	for _, op := range ops {
-		if op[0] == 'h' {
-			var k uint64
-			fmt.Sscan(op[1:], &k)
-			hbBytes += k
-		}
-	}
-	if maxSeen > max+max/2+hbBytes {
-		out.OracleFail("C16:buffered-amount-unbounded", fmt.Sprintf("buffered amount reached %d > %d", maxSeen, max+max/2+hbBytes), line)
+	if sig, what := st.heldBack(); sig != "" {
+		out.OracleFail(sig, what, line)
+		return
 	}
 	if len(wrote) != len(accepted) {
 		out.OracleFail("C16:write-lost-or-duplicated", fmt.Sprintf("%d messages forwarded, %d writes accepted", len(wrote), len(accepted)), line)
@@ -962,9 +1016,12 @@ func c16ConcurrentWriters(out *vlib.Out, r *vlib.Rand, writers, perWriter int) {
 	st.mu.Lock()
 	maxSeen, nwrote := st.maxSeen, len(st.wrote)
 	st.mu.Unlock()
+	hsig, hwhat := st.heldBack()
 	switch {
 	case maxSeen > max+max/2:
 		out.OracleFail("C16:buffered-amount-unbounded", fmt.Sprintf("%d concurrent writers: buffered amount reached %d > %d", writers, maxSeen, max+max/2), replay)
+	case hsig != "":
+		out.OracleFail(hsig, fmt.Sprintf("%d concurrent writers: %s", writers, hwhat), replay)
 	case hung:
 		out.OracleFail("C16:write-hangs", fmt.Sprintf("%d concurrent writers over a stream that keeps acknowledging data did not finish within 30 s", writers), replay)
 	case badWrites > 0 || nwrote != okWrites || okWrites != total:
@@ -976,7 +1033,10 @@ func c16ConcurrentWriters(out *vlib.Out, r *vlib.Rand, writers, perWriter int) {
 
 // c16FlowGen generates an operation list; it tracks the expected state only to keep the list
 // executable (no second write while one is blocked, Close last).
-func c16FlowGen(r *vlib.Rand, n int) []string {
+//
+// timed > 0: up to `timed` operations `t<ms>` (that much real time passes with the network as it is) are put
+// where they matter: while a write is waiting.
+func c16FlowGen(r *vlib.Rand, n int, timed int) []string {
 	max := int(writeMaxBufferedAmount)
 	var ops []string
 	b := 0
@@ -985,6 +1045,9 @@ func c16FlowGen(r *vlib.Rand, n int) []string {
 	for i := 0; i < n; i++ {
 		x := r.Intn(10)
 		switch {
+		case blocked > 0 && timed > 0 && (x < 4 || i >= n-2):
+			timed--
+			ops = append(ops, fmt.Sprintf("t%d", r.Range(1100, 2600)))
 		case blocked > 0 && x < 1:
 			ops = append(ops, "c")
 			return ops
